@@ -36,6 +36,7 @@ class Module:
     tree: ast.Module
     digest: str
     lines: list = field(default_factory=list)
+    normalized: dict = field(default_factory=dict)
 
 
 def _annotate(tree: ast.AST, module: Module) -> None:
@@ -145,6 +146,15 @@ class Program:
             raise AnalysisError(f"{rel} does not parse: {e}")
         m = Module(name, full, rel, src, tree, hashlib.sha256(raw).hexdigest())
         m.lines = src.splitlines()
+        if not rel.startswith("<dep>") and os.environ.get("SA_NO_NORMALIZE") != "1":
+            from .normalize import normalize
+
+            try:
+                m.normalized = normalize(tree, name)
+            except Exception as e:  # normalisation is best effort: analyse the tree as written
+                m.normalized = {"error": f"{type(e).__name__}: {e}"}
+                tree = ast.parse(src, filename=rel)
+                m.tree = tree
         _annotate(tree, m)
         self.modules[name] = m
 
@@ -299,6 +309,23 @@ class Program:
 
 # --------------------------------------------------------------------------
 # AST helpers
+
+
+def clone(node):
+    """structural copy of an AST subtree (fields and positions only - the analysis annotations
+    _parent/_module/_func would drag the whole module into a deepcopy)"""
+    if isinstance(node, list):
+        return [clone(x) for x in node]
+    if not isinstance(node, ast.AST):
+        return node
+    new = type(node)()
+    for f in node._fields:
+        if hasattr(node, f):
+            setattr(new, f, clone(getattr(node, f)))
+    for a in ("lineno", "col_offset", "end_lineno", "end_col_offset"):
+        if hasattr(node, a):
+            setattr(new, a, getattr(node, a))
+    return new
 
 
 def dotted(node) -> str:
@@ -526,9 +553,11 @@ class Finding:
         return d
 
 
-def finding_at(prop, rule, node, message, stmt=None, text=None, **extra) -> Finding:
+def finding_at(prop, rule, node, message, stmt=None, text=None, label=None, **extra) -> Finding:
     """Finding located at ``node`` (any AST node inside a module of the program).
-    ``text`` is appended to the normalised statement to tell apart several obligations on one statement."""
+    ``text`` is appended to the normalised statement to tell apart several obligations on one statement.
+    ``label`` replaces the statement text in the key by a stable obligation label (used where the finding is a
+    recorded known finding: renaming a local variable in that statement must not turn it into a new alarm)."""
     s = stmt if stmt is not None else enclosing_stmt(node)
     if s is None:
         s = node
@@ -538,7 +567,7 @@ def finding_at(prop, rule, node, message, stmt=None, text=None, **extra) -> Find
         rule,
         m.rel,
         qual_of(node),
-        norm(s) + (f" :: {text}" if text else ""),
+        (f"[{label}]" if label else norm(s) + (f" :: {text}" if text else "")),
         message,
         getattr(node, "lineno", 0) or getattr(s, "lineno", 0),
         extra,
